@@ -45,7 +45,7 @@ pub fn build(tier: Tier) -> Check<'static> {
             match &plain {
                 Ok((pt, dd)) => {
                     acc.nontrivial += 1;
-                    pp::strip_oracle(acc, &prog, &src, &d, Ok((pt.text(), dd)), &case)
+                    pp::strip_oracle(acc, &prog, &src, &d, Ok((pt, dd)), &case)
                 }
                 Err(e) => pp::strip_oracle(acc, &prog, &src, &d, Err(api::err_sig(e)), &case),
             }
